@@ -194,9 +194,38 @@ class Ctx:
         if detail:
             log("  " + detail)
 
+    def split_trace(self, trace_file, max_events=25000):
+        """Cuts a long trace at `reset` events into chunks of at most about max_events events (TLC holds a chunk in memory)."""
+        n = sum(1 for _ in open(trace_file))
+        if n <= max_events * 1.3:
+            return [trace_file]
+        chunks, cur, cnt, k = [], None, 0, 0
+        with open(trace_file) as f:
+            for line in f:
+                if cur is None or (cnt >= max_events and line.startswith('{"ev":"reset"')):
+                    if cur:
+                        cur.close()
+                    k += 1
+                    path = "%s.part%03d" % (trace_file, k)
+                    chunks.append(path)
+                    cur, cnt = open(path, "w"), 0
+                cur.write(line)
+                cnt += 1
+        if cur:
+            cur.close()
+        return chunks
+
     def judge_traces(self, trace_file, props, invariants=(), label="verdict"):
-        """Validates; on a violation cuts the replay, re-validates it alone and reports. Returns True if clean."""
-        res = self.validate_traces(trace_file, props, invariants, label)
+        """Validates (in chunks); on a violation cuts the replay, re-validates it alone and reports. Returns True if clean."""
+        chunks = self.split_trace(trace_file)
+        res = None
+        for i, ch in enumerate(chunks):
+            res = self.validate_traces(ch, props, invariants, label if len(chunks) == 1 else "%s-%d" % (label, i + 1))
+            if res is not None:
+                trace_file = ch
+                break
+            if ch != trace_file:
+                os.remove(ch)
         if res is None:
             return True
         name, line = res
